@@ -31,6 +31,7 @@ OPTIONS = {
     'use_enum_value': dict(use_enum_value=True),
 }
 OPTIONS_X = {
+    'sd1_e': dict(significant_digits=1, number_format_notation='e'),
     'truncate_day': dict(truncate_datetime='day'),
     'truncate_hour': dict(truncate_datetime='hour'),
     'tz_m5': dict(default_timezone=datetime.timezone(datetime.timedelta(hours=-5))),
@@ -149,7 +150,7 @@ def datetime_alias(a, b):
     return any(x == y and x.utcoffset() != y.utcoffset() for x in aware for y in aware)
 
 
-def in_domain(a, b, kw=None, direct=False):
+def in_domain(a, b, kw=None, direct=False, rep=True):
     """direct: the two numbers are compared by _diff itself (root, dictionary value), never through one shared hashes table, so NoNumAlias
     (a restriction about that table) does not apply"""
     kw = kw or {}
@@ -158,7 +159,7 @@ def in_domain(a, b, kw=None, direct=False):
     if not direct and kw.get('truncate_datetime') in ('hour', 'day') and datetime_alias(a, b):
         return False
     return ((direct or HS.no_num_alias(a, b)) and HS.no_spoof(a, b) and not keys_collapse(a, kw) and not keys_collapse(b, kw)
-            and not set_members_collapse(a, kw) and not set_members_collapse(b, kw))
+            and (not rep or (not set_members_collapse(a, kw) and not set_members_collapse(b, kw))))       # F29 needs report_repetition
 
 
 def run(ctx, impl_only=False):
@@ -253,6 +254,19 @@ def run(ctx, impl_only=False):
         tr = ctx.rng.choice(['truncate_day', 'truncate_hour', 'truncate_datetime'])
         dz = ctx.rng.choice([None, 'tz_m5', 'tz_530', 'default_timezone'])
         cases.append((w(x), w(y), (tr,) if dz is None else (tr, dz)) + (('direct',) if wi < 2 else ()))      # root and dictionary value: compared by _diff_datetime itself
+    # sets that hold two members an option identifies, one of them shared with the other side (the difference of sets is taken on the
+    # normalised digests), at the root and as dictionary values
+    for (x, y, nm) in [({'a', 'A', 'b'}, {'a', 'b'}, 'ignore_string_case'), ({'a', 'A', 'b'}, {'A', 'b'}, 'ignore_string_case'), ({'a', 'A'}, {'a', 'b'}, 'ignore_string_case'),
+                       ({1.001, 1.002, 5.0}, {1.001, 5.0}, 'significant_digits_e'), ({2.5, 2.5004, 7.0}, {2.5004, 7.0}, 'significant_digits'), ({'x', b'x', 'y'}, {'x', 'y'}, 'ignore_string_type_changes'),
+                       ({1, 1.0 + 1e-9, 3}, {1, 3}, 'significant_digits'), (frozenset({'k', 'K'}), frozenset({'K'}), 'ignore_string_case')]:
+        for w in (lambda v: v, lambda v: {'s': v, 'z': 1}, lambda v: {'a': {'s': v}}):
+            cases.append((w(x), w(y), (nm,), 'direct'))
+    # numeric dictionary keys under the 'e' notation: keys that agree at the precision of the notation are one key for DeepDiff and for DeepHash alike
+    import decimal as _dc2
+    for (x, y) in [({1000.04: 'a'}, {1040.0: 'a'}), ({_dc2.Decimal('123456'): 1}, {123499: 1}), ({1000.04: 'a'}, {2040.0: 'a'}), ({12345.0: [1]}, {12399: [1]}), ({0.00012345: 1}, {0.00012399: 1}), ({5.0: 'v'}, {5: 'v'})]:
+        for w in (lambda v: v, lambda v: {'d': v}, lambda v: {'d': {'e': v}, 'z': 0}):
+            cases.append((w(x), w(y), ('ignore_numeric_type_changes', 'sd1_e'), 'direct'))
+            cases.append((w(x), w(y), ('ignore_numeric_type_changes', 'significant_digits_e'), 'direct'))
     # hostile keys, edge-case leaves and shared sub-objects (implementation only): each pair and the pair of a value with its deep copy
     from . import _difffam as FAM
     for (t1_, t2_) in FAM.hostile_pairs(ctx, 100 if ctx.thorough() else 20):
@@ -265,9 +279,9 @@ def run(ctx, impl_only=False):
         kw = {}
         for nm in combo:
             kw.update(ALLOPT[nm])
-        if not in_domain(a, b, kw, direct):
-            ctx.count('out_of_domain'); continue
         for rep in (False, True):
+            if not in_domain(a, b, kw, direct, rep):
+                ctx.count('out_of_domain'); continue
             case = {'a': repr(a), 'b': repr(b), 'options': list(combo), 'report_repetition': rep}
             ctx.evaluations += 1
             try:
